@@ -39,7 +39,7 @@ SINKS_OK = {'print', 'str', 'repr', 'format', 'round', 'int', 'float'}
 
 # iteration over a set: site -> reason the order cannot matter
 SET_ITERATION_ALLOWED = {
-    ('Group.__init__', 'all_devices'): 'validation loop: appends the group to each device once and raises on a foreign neighbour; nothing order-dependent is stored',
+    'Group.__init__': 'validation loop: appends the group to each device once and raises on a foreign neighbour; nothing order-dependent is stored',
 }
 # class-level state written at run time: attribute -> reason
 CLASS_STATE_ALLOWED = {
@@ -254,7 +254,7 @@ def set_iteration(ctx, o):
             where = f'{cls.name if cls else "<module>"}.{func.name if func else "<top>"}'
             o.count()
             n_found += 1
-            key = (where, ast.unparse(it))
+            key = where                      # (the function, not the name of the local that holds the set)
             if key in SET_ITERATION_ALLOWED:
                 # the allowed loop must stay order-insensitive: no scheduling, no recording, no list of results built from it
                 body_calls = {call_attr(c_) for c_ in ast.walk(st) if isinstance(c_, ast.Call)}
